@@ -622,9 +622,24 @@ func (m *mcuJanus) getOrCreatePublisherHandle(ctx context.Context, id string, st
 
 	response, err := handle.Message(ctx, msg, nil)
 	if err != nil {
-		if _, err2 := handle.Detach(ctx); err2 != nil {
-			log.Printf("Error detaching handle %d: %s", handle.Id, err2)
-		}
+		// The room was created for this publisher only, don't leave it behind.
+		// Use a new context as the passed one might be expired already and
+		// don't delay the caller any further.
+		go func() {
+			cleanupCtx, cancel := context.WithTimeout(context.Background(), m.settings.Timeout())
+			defer cancel()
+
+			destroy_msg := map[string]interface{}{
+				"request": "destroy",
+				"room":    roomId,
+			}
+			if _, err2 := handle.Request(cleanupCtx, destroy_msg); err2 != nil {
+				log.Printf("Error destroying room %d: %s", roomId, err2)
+			}
+			if _, err2 := handle.Detach(cleanupCtx); err2 != nil {
+				log.Printf("Error detaching handle %d: %s", handle.Id, err2)
+			}
+		}()
 		return nil, 0, 0, 0, err
 	}
 
